@@ -159,7 +159,11 @@ def percent_format(I, fmt, arg):
             if isinstance(a, int):
                 parts.append(("%0." + str(width) + "i") % a)
             elif width == 3:
-                parts.append(SStr(pad3(a.t)))
+                if getattr(I.cfg, "structural_strings", False):
+                    from .strings import name_number
+                    parts.append(SStr(name_number(I, pad3(a.t), a.t, "pad3")))
+                else:
+                    parts.append(SStr(pad3(a.t)))
             else:
                 raise Outside("padded format width")
     parts.append(fmt[pos:].replace("%%", "%"))
@@ -336,6 +340,9 @@ def str_method(I, s, name):
             enc = (a[0] if a else k.get("encoding", "utf-8")).lower().replace("_", "-")
             if enc in ("utf-8", "utf8"):
                 f = I_.ufun("utf8", z3.StringSort(), z3.StringSort())
+                if getattr(I_.cfg, "structural_strings", False):
+                    from .strings import utf8_struct
+                    return SStr(utf8_struct(I_, t), is_bytes=True)
                 r = SStr(f(t), is_bytes=True)
                 if hasattr(s, "view"):  # frame strings keep their abstract view
                     r = type(s)(f(t), True, s.view)
@@ -599,6 +606,12 @@ def call_extern(I, fn, args, kwargs):
             return SInt(z3.StrToCode(v.t))
         if nm == "sum":
             v = args[0]
+            if getattr(I.cfg, "structural_strings", False) and isinstance(v, _i.CharCodes):
+                from .strings import sumord_struct
+                return SInt(sumord_struct(I, v.s.t))
+            if getattr(I.cfg, "structural_strings", False) and isinstance(v, SStr) and v.is_bytes:
+                from .strings import bytesum_struct
+                return SInt(bytesum_struct(I, v.t))
             if isinstance(v, _i.CharCodes):
                 f = I.ufun("sumord", z3.StringSort(), z3.IntSort())
                 I.ctx.assume(SBool(f(v.s.t) >= 0))
